@@ -1,0 +1,5 @@
+//go:build !verif
+
+package j2p
+
+func (self *visitorUserNode) trace(cb string) {}
